@@ -34,7 +34,7 @@ CLAIMS.update({
           "Digest, checksum and cache directory must be a function of the TLA+-built canonical key across sessions with different PYTHONHASHSEED, insertion orders, pickling, worker and cache-root path; a later session must find the result.",
           "Seeds are sampled (0,1,2,3,random); term_of projection trusted but checked per event.", "6/C07"),
  "C08": C("model_checking", "Identity_Obs: canonical keys built in TLA+; Deterministic, ContextFree, Injective checked by TLC over all observation pairs",
-          "TLC generates the value grammar (depth 2 + extended atoms, arrays by shape x dtype); every term is hashed alone, reordered, shared, pickled, inside containers, after other values; TLC checks the three relations over all pairs.",
+          "TLC generates the value grammar (depth 2 + extended atoms incl. types, functions, stateless callables - built-ins, ufuncs, method descriptors, itemgetters, partials -, objects, paths; arrays by shape x dtype); every term is hashed alone, reordered, shared, pickled, inside containers, after other values; TLC checks the three relations over all pairs.",
           "The relational oracle says nothing about values that raise (mixed-type sets).", "6/C08"),
  "C09": C("model_checking", "FileHash.tla state machine (ideal / as-built / documented-guard key modes) model-checked; TLC behaviours replayed on a real directory with two processes",
           "M1 on the three key modes; every behaviour of <=3 (quick) / <=4 (+2000 simulated length 5, thorough) file operations replayed with os.utime-controlled mtimes and a private persistent hash cache; directory projection compared after each step, each digest compared with a cold-cache digest.",
